@@ -115,6 +115,20 @@ def run_federation(masks, perm, filt):
         c = api.creator_of(node(1))
         if c is None or c["id"] != CREATOR:
             return False
+    if perm >= 6:
+        # answering through the outer composite / environment must leave the inner composite as it was: it has no filters of its own, so
+        # used directly afterwards it answers from its members unfiltered
+        if len(list(inner.filters)) != 0 or any(len(list(s_.filters)) != 0 for s_ in srcs):
+            return False
+        inner_members = [[0, 1], [2], [1, 2, 0]][perm - 6]
+        held_inner = sorted("v%d" % m for m, mask in enumerate(masks) if any(mask & (1 << j) for j in inner_members))
+        if sorted(o["name"] for o in inner.all_versions(NODES[0])) != held_inner:
+            return False
+        if sorted(o["name"] for o in inner.query([Filter("id", "=", NODES[0])])) != held_inner:
+            return False
+        again = sorted(o["name"] for o in comp.all_versions(NODES[0]))
+        if perm != 8 and again != sorted("v%d" % m for m in held):
+            return False
     return True
 
 
